@@ -301,6 +301,9 @@ def units_trapview(tier):
     return [TrapView(k) for k in ((0, 1, 2) if tier == "quick" else (0, 1, 2, 3))]
 
 
+LARGE_DICT = 12
+
+
 def units(tier):
     us = [FromRaw()]
     ks = (0, 1, 2) if tier == "quick" else (0, 1, 2, 3)
@@ -310,6 +313,12 @@ def units(tier):
     for m in ("multiget", "multiset", "walk", "multiwalk", "bulkwalk", "bulkget", "table", "bulktable"):
         for k in ks:
             us.append(WrapperUnit(m, k))
+    # LARGE shapes: one container far above the enumerated sizes (chunking, caps and thresholds act only there)
+    for m in ("multiget", "walk", "multiwalk", "bulkwalk", "table", "bulktable"):
+        us.append(WrapperUnit(m, 40 if tier == "quick" else 300))
+    us.append(WrapperUnit("multiset", 5))
+    for m in ("bulkget",):          # dictionaries keyed by str(oid): every insertion compares with every earlier key
+        us.append(WrapperUnit(m, LARGE_DICT))
     return us
 
 
